@@ -313,7 +313,9 @@ pub fn read_all(content: &[u8], o: &ReadOpts, ctx: &mut Ctx) -> Result<ReadOut, 
                 let col_ok = text.split(':').nth(1).map(|s| s.parse::<usize>().is_ok()).unwrap_or(false);
                 vensure!(line.is_some() && col_ok, "error:no-position", "error text {text:?} does not start with line:col");
                 let line = line.unwrap();
-                vensure!(line >= 1 && line <= newlines + 1, "error:line-out-of-range", "error {text:?} names line {line}; the input has {newlines} newlines");
+                // (+2: a reader may treat the end of input as an implicit line
+                // terminator and report an error found there on the line after it)
+                vensure!(line >= 1 && line <= newlines + 2, "error:line-out-of-range", "error {text:?} names line {line}; the input has {newlines} newlines");
                 out.error = Some(text);
                 break;
             }
